@@ -383,7 +383,7 @@ def plan_c13(P: Planner):
     def body(bops, depth):
         n = r.randint(1, 4)
         for _ in range(n):
-            k = weighted(r, [("forward", 6), ("calib", 2 if depth < 3 else 0), ("noext", 1), ("lib", 1), ("newdep", 0.5 if len(P.deps) < 3 else 0), ("freeze", 0.5)])
+            k = weighted(r, [("forward", 6), ("calib", 2 if depth < 3 else 0), ("noext", 1), ("lib", 1), ("newdep", 0.5 if len(P.deps) < 3 else 0), ("freeze", 0.5), ("userctx", 0.5 if depth < 2 else 0)])
             a = P.pick(lambda a: a.quantized)
             if k == "forward" and a:
                 P.forward(bops, a, inside_block=True)
@@ -399,11 +399,22 @@ def plan_c13(P: Planner):
                     op["catch"] = True
             elif k == "lib":
                 lib(bops)
+            elif k == "userctx":
+                userctx(bops, depth)
             elif k == "newdep":
                 P.new_dep(bops)
             elif k == "freeze" and a:
                 P.emit(bops, {"op": "freeze", "dep": a.id})
                 a.frozen = True
+
+    def userctx(uops, depth):
+        # the caller's own global hooks and function mode, installed around further blocks
+        op = P.emit(uops, {"op": "userctx", "hooks": r.choice([["pre", "post"], ["post"], ["pre"], ["post", "pre", "post"], []]), "mode": r.random() < 0.5, "body": []})
+        if not op["hooks"]:
+            op["mode"] = True
+        body(op["body"], depth + 1)
+        if r.random() < 0.3:
+            op["catch"] = True
 
     def lib(lops):
         fn = r.choice(["quantize_weight", "quantize_activation", "absmax_scale"])
@@ -427,8 +438,11 @@ def plan_c13(P: Planner):
 
     n = r.randint(3, 9)
     for _ in range(n):
-        k = weighted(r, [("calib", 5), ("forward", 4), ("noext", 1), ("lib", 1), ("newdep", 0.7 if len(P.deps) < 3 else 0), ("freeze", 0.6), ("reuse_calib", 1.5), ("refill", 1.2)])
+        k = weighted(r, [("calib", 5), ("forward", 4), ("noext", 1), ("lib", 1), ("newdep", 0.7 if len(P.deps) < 3 else 0), ("freeze", 0.6), ("reuse_calib", 1.5), ("refill", 1.2), ("userctx", 1.2)])
         a = P.pick(lambda a: a.quantized)
+        if k == "userctx":
+            userctx(ops, 0)
+            continue
         if k == "refill" and a and a.inputs:
             prev = copy.deepcopy(r.choice(a.inputs))
             if not prev.get("q"):
